@@ -27,7 +27,7 @@ MODS = [M + f for f in (
     "upipe_m3u_reader.c", "upipe_void_source.c", "upipe_even.c", "upipe_trickplay.c", "upipe_play.c", "upipe_stream_switcher.c",
     "upipe_separate_fields.c", "upipe_row_split.c", "upipe_row_join.c", "upipe_ntsc_prepend.c", "upipe_rtp_pcm_pack.c", "upipe_audio_copy.c",
     "upipe_subpic_schedule.c", "upipe_crop.c", "upipe_video_blank.c", "upipe_audio_blank.c", "upipe_sine_wave_source.c",
-    "upipe_blit.c", "upipe_videocont.c", "upipe_audiocont.c",
+    "upipe_blit.c", "upipe_videocont.c", "upipe_audiocont.c", "upipe_audio_split.c", "upipe_audio_merge.c",
 )]
 PIPEX = CORE + MODS + [E + "vmock_upump.c", E + "simfd.c"]
 
@@ -404,11 +404,22 @@ CAT_GENERIC2 = ("dejitter", "multicat_probe", "aes_decrypt", "aes_decrypt_clear"
                 "rtp_pcm_pack", "audio_copy", "crop", "video_blank", "audio_blank", "subpic_schedule",
                 "dejitter_sub", "subpic_schedule_sub", "play", "ts_psi_join",
                 "block_to_sound", "rtp_pcm_unpack", "m3u_reader", "row_join", "even", "trickplay", "stream_switcher",
-                "blit", "videocont", "audiocont")
+                "stream_switcher_ml", "blit", "videocont", "audiocont", "audio_split", "audio_merge")
 CAT_ROWS += list(CAT_GENERIC2)
 # generic rows whose depth differs from (quick 4, thorough 5): input-subpipe rows need one more step (allocate the subpipe); ntsc_prepend moves 720x480 pictures
 CAT_GENERIC_DEPTH = {"dejitter_sub": (5, 6), "subpic_schedule_sub": (5, 6), "play": (5, 6), "ts_psi_join": (5, 6), "ntsc_prepend": (4, 4),
-                     "even": (5, 6), "trickplay": (5, 6), "stream_switcher": (6, 6)}
+                     "even": (5, 6), "trickplay": (5, 6), "stream_switcher": (6, 6),
+                     "stream_switcher_ml": (5, 6), "audio_merge": (5, 6)}
+# further jobs of a row that start from a non-initial state (seqx --prefix: operation numbers of the OP_ enum of pipex_cat.c) and, for the deep ones,
+# offer a sub-alphabet only (--only): (extra arguments, quick depth, thorough depth). The rows with a reference input and input subpipes need
+# 3 operations before anything can flow (allocate the subpipe, connect the output, define the flow).
+#   29 alloc_sub   8 set_output(S0)   0 set_flow_def(F1)   17 option 1 value 0 (videocont: latency of two buffer periods)
+#   0/1 set_flow_def(F1/F2)  3/7 input (plain / shared)  38 the reference input's pump  11 toggle S0  10/8 set_output(NULL/S0)  31 release(sub0)  40 release
+_CONT_ONLY = "0,1,3,7,38,11,10,8,31,29,40"
+#   blit: 33 dispatch(ready pump 0)   14 / 18 / 22 / 26 one value of each option of subpipe 0 (rect, alpha, alpha threshold, z-index)
+CAT_EXTRA = {"blit": [(["--prefix", "29,8,0", "--only", "0,1,3,7,38,33,11,31,14,18,22,26,40"], 4, 5)],
+             "audiocont": [(["--prefix", "29,8,0", "--only", _CONT_ONLY], 5, 6)],
+             "videocont": [(["--prefix", "29,8,0", "--only", _CONT_ONLY], 5, 6), (["--prefix", "29,8,0,17", "--only", _CONT_ONLY], 5, 6)]}
 # rows left out of C20: the sources start on any control command, a getter included
 C20_EXCLUDED = ("void_source", "sine_wave_source")
 CAT_HEAVY = {"buffer": 1, "setattr>delay>idem": 1, "ts_split": 1, "ts_psi_split": 1}
@@ -434,6 +445,9 @@ def _cat_jobs(oracle, tier, rows=CAT_ROWS, pools=(0, 2)):
             axes = [(pools[0], 0, d)] + [(p, 1, d) for p in pools[1:]] + [(pools[0], 1, d - 1)] + [(p, 0, d - 1) for p in pools[1:]]
         for (pool, prov, depth) in axes:
             jobs.append(("pipex_cat", ["--row", r, "--oracle", oracle, "--pool", pool, "--prov", prov, "--depth", depth, "--deadline", 75 if q else 840]))
+        for (extra, dq, dt) in CAT_EXTRA.get(r, []):
+            for (pool, prov) in ([(pools[0], 0)] if q else [(pools[0], 0), (pools[-1], 1)]):
+                jobs.append(("pipex_cat", ["--row", r, "--oracle", oracle, "--pool", pool, "--prov", prov, "--depth", dq if q else dt, "--deadline", 75 if q else 840] + extra))
     return jobs
 
 _CAT_BOUNDS = {"quick": "61 catalogue rows (the first 32: 29 pipes, the queue pair also without an event loop for the source, 2 chains; then 29 further rows with the generic oracles only, depth 4, input-subpipe rows depth 5): every sequence of up to 5 operations (4 for buffer and the 3-pipe chain) with pool depth 0 and managers provided by the probes, and up to 4 (3) operations with pool depth 2 and managers provided by the sinks (shared managers), over the row's alphabet "
